@@ -693,7 +693,9 @@ where
 
 	// update ttl if desired
 	if let Some(b) = args.ttl_blocks {
-		ret_slate.ttl_cutoff_height = height + b;
+		ret_slate.ttl_cutoff_height = height
+			.checked_add(b)
+			.ok_or_else(|| Error::GenericError("ttl_blocks is too large".to_owned()))?;
 	}
 
 	// if this is compact mode, we need to create the transaction now
